@@ -28,6 +28,9 @@ func VerifShimSet(h VerifShimHooks) {
 
 func VerifResetPools() { vsync.ResetPools() }
 
+// VerifPoolDoublePuts: how often an object was put into a pool that already held it since the last reset.
+func VerifPoolDoublePuts() int { return vsync.DoublePuts() }
+
 // VerifDumpPools describes every pooled object in a canonical form.
 func VerifDumpPools() string {
 	var sb strings.Builder
